@@ -195,7 +195,8 @@ def run(ctx):
                     else:
                         r.ok("arm|Quiet", "Quiet writes nothing", fn=f)
                 elif v == "Count":
-                    w = [c for c in writes if c.path == SUM + "::write" and mentions_field(eb.operand(c.args[1]), SUM, "match_count")]
+                    w = [c for c in writes if c.path == SUM + "::write" and mentions_field(eb.operand(c.args[1]), SUM, "match_count")
+                         and not mentions_call(eb.operand(c.args[1]), STATS + "::matches")]
                     if w:
                         r.ok("arm|Count", "Count writes match_count", fn=f)
                     else:
